@@ -22,20 +22,33 @@ func (w *verifWorld) newBareManager() *manager {
 		MaxTaskThroughput: time.Nanosecond, RetryInterval: time.Nanosecond,
 		PollRetriesInterval: time.Hour, WorkqueueMetricsEmitInterval: time.Hour, Testing: true,
 	}.applyDefaults()
-	m := &manager{
-		config:   cfg,
-		stats:    tally.NoopScope,
-		store:    &verifStore{w, w.epoch},
-		executor: &verifExecutor{w, w.epoch},
-		incoming: make(chan Task, cfg.IncomingBuffer),
-		retries:  make(chan Task, cfg.RetryBuffer),
-		done:     make(chan struct{}),
-	}
 	budget := w.crashBudget
 	w.crashBudget = 0 // (a death during start-up is a death before the next step)
-	verif.Assert("restart-marks-pending-tasks-failed", m.markPendingTasksAsFailed() == nil)
-	w.crashBudget = budget
-	return m
+	defer func() { w.crashBudget = budget }()
+	for {
+		m := &manager{
+			config:   cfg,
+			stats:    tally.NoopScope,
+			store:    &verifStore{w, w.epoch},
+			executor: &verifExecutor{w, w.epoch},
+			incoming: make(chan Task, cfg.IncomingBuffer),
+			retries:  make(chan Task, cfg.RetryBuffer),
+			done:     make(chan struct{}),
+		}
+		// start-up recovery; its store calls (GetPending, MarkFailed) may hit a
+		// transient store fault (world.go: storeFault)
+		faults := w.faults
+		w.starting = true
+		err := m.markPendingTasksAsFailed()
+		w.starting = false
+		if err == nil {
+			return m // NewManager succeeds: this process serves from now on
+		}
+		// NewManager fails: the process does not come up and is started again
+		// (the fault is transient and the budget is finite, so this ends).
+		verif.Assert("start-up-fails-only-when-the-store-failed", w.faults > faults)
+		verif.Cover("start-up-failed-on-a-store-fault-and-the-process-was-started-again", true)
+	}
 }
 
 // workerStep is one iteration of manager.worker on the given queue.
@@ -100,6 +113,8 @@ func VerifSequentialHistory() {
 	w := &verifWorld{changed: make(chan struct{}, 64), symbolic: verif.Symbolic()}
 	w.crashBudget = verif.Bound("process_deaths", 1, 2)
 	m := w.newBareManager()
+	// (set after the first start: a fault on the empty store changes nothing)
+	w.faultBudget = verif.Bound("startup_store_faults", 1, 2)
 	steps := verif.Bound("steps", 3, 4)
 	for s := 0; s < steps; s++ {
 		var died bool
